@@ -101,7 +101,7 @@ def main():
         "add_only": True,
       },
       "engines": [
-        {"name": "rustun-verif", "path": "harness", "serves_properties": sorted(CLAIMED), "kind_free_text": "Rust binary: proptest TestRunner (fixed seed from VERIF_SEED, 16 shards), exhaustive enumerators, reference codec/crypto/model oracles"},
+        {"name": "rustun-verif", "path": "harness", "serves_properties": sorted(CLAIMED), "kind_free_text": "Rust binary: proptest TestRunner (fixed seed from VERIF_SEED, 16 shards), exhaustive enumerators, reference codec/crypto/model oracles; built in profile verif (debug assertions and overflow checks on) and, for C01/C02/C14, also in profile verifrel (both off) for a second pass"},
       ],
       "checks": [],
       "not_applicable": [],
